@@ -54,7 +54,8 @@ META['level_text'] = (
     'leaves what its elements before the refused one produce. Refutation witnesses for the two open findings inside the model (container held by a frozen field; Union result not a fixed point). '
     'Tie: the model is run against typed pg.Dict / pg.List / pg.Object on every generated case (corpus, write-path x spec-kind x value-class sweep, random histories) and the '
     'snapshots (kind, flags, bound spec, keys, values) after construction and after every step must be identical (a history is compared up to the first step that stores a value its '
-    'own field does not map to itself -- open Union finding; the count is in extra.compared_up_to_first_non_fixpoint_store); the direct oracle re-applies every bound spec with the real library.')
+    'own field does not map to itself -- open Union finding; the count is in extra.compared_up_to_first_non_fixpoint_store); the direct oracle re-applies the declared schema (spec objects of its own) to plain copies of the stored members, and judges a child that carries its own spec by '
+    'its own containment rule for specs (independent of is_compatible / custom_apply); a sweep hands typed values to typed fields for 66 spec relations x every write path.')
 META['level_note'] = (
     'Trusted: Coq kernel; extraction (ExtrOcamlBasic) cross-checked against vm_compute on a sample; the drivers, generators and the spec rendering of harness/props/c04.py. '
     'Modelled, not verified: the Python code itself (tied by the correspondence only). Outside the model (direct oracle only): symbolic values handed to a typed container '
@@ -107,9 +108,11 @@ class TImpl(D.Impl):
     self.spec_trees = spec_trees
     self.specs = [c04.build(t) for t in spec_trees]
     self.spec_lines = [self.spec_line(t) for t in spec_trees]
+    self.decl_specs = [c04.build(t) for t in spec_trees]      # for the oracle only: never bound to a container of the case
     self.classes = make_classes(self.specs, cls_refs)
     self.cls_refs = list(cls_refs)
     self.partial_used = False       # some step ran under an allow_partial(True) scope
+    self.by_reference_roots = False # some root was constructed from symbolic values
 
   # -- literals and values
   def lit(self, lt):
@@ -132,6 +135,17 @@ class TImpl(D.Impl):
     P = pg()
     sealed, aw, partial = map(bool, flags[:3])
     val = c04.build_value(pv)
+    if kind == 0:
+      return P.Dict(val, value_spec=self.specs[ref - 1] if ref else None, sealed=sealed, accessor_writable=aw, allow_partial=partial)
+    if kind == 1:
+      return P.List(val, value_spec=self.specs[ref - 1] if ref else None, sealed=sealed, accessor_writable=aw, allow_partial=partial)
+    o = self.classes[kind - 2](sealed=sealed, allow_partial=partial, **val)
+    o.set_accessor_writable(aw)
+    return o
+
+  def typed_root_from(self, kind, ref, flags, val):
+    P = pg()
+    sealed, aw, partial = map(bool, flags[:3])
     if kind == 0:
       return P.Dict(val, value_spec=self.specs[ref - 1] if ref else None, sealed=sealed, accessor_writable=aw, allow_partial=partial)
     if kind == 1:
@@ -271,10 +285,20 @@ def build_roots(impl, roots):
   for r in roots:
     try:
       with D.watchdog(D.WATCHDOG_S):
-        x = impl.lit(r[1]) if r[0] == 0 else impl.typed_root(r[1], r[2], r[3], r[4])
+        if r[0] == 2:
+          impl.by_reference_roots = True
+          # (oracle only) a typed container constructed from values given by reference: pg.Dict({k: <root i>}, value_spec=...)
+          items = [(D.dec_key(k), impl.value(v)) for k, v in r[4]]
+          arg = [v for _, v in items] if r[1] == 1 else dict(items)
+          x = impl.typed_root_from(r[1], r[2], r[3], arg)
+        else:
+          x = impl.lit(r[1]) if r[0] == 0 else impl.typed_root(r[1], r[2], r[3], r[4])
       if not D.is_sym(x):
         raise TypeError('not a symbolic root')
       impl.roots.append(x); inits.append(0)
+      for i, y in enumerate(impl.roots[:-1]):      # a root that now sits inside the new one has left its slot
+        if y is not None and y.sym_parent is not None:
+          impl.moved[i] = y; impl.roots[i] = None
     except Exception as e:      # pylint: disable=broad-except
       impl.roots.append(None); inits.append(D.err_code(e))
   return inits
@@ -387,7 +411,10 @@ def check_node(impl, x, where, hits):
   if spec is None:
     return
   partial = bool(x.allow_partial) or impl.partial_used
-  if impl.spec_ref(x) == -1:
+  ref = impl.spec_ref(x)
+  if ref >= 1 and not isinstance(x, P.Object):
+    spec = impl.decl_specs[ref - 1]        # the declared schema as a spec object of its own (the node's may have been written to)
+  if ref == -1:
     hits.append(('schema-changed', '-', '%s: the value spec the node carries is none of the specs of the case any more (a write changed the schema itself): %s' % (
         where, spec.format(compact=True)[:160])))
   if isinstance(x, P.List):
@@ -425,31 +452,131 @@ def check_forest(impl):
       except Exception as e:      # pylint: disable=broad-except
         hits.append(('oracle-raises', type(e).__name__, 'checking root #%d at %r raised %r' % (ri, str(x.sym_path), e)))
     D.walk(root, visit)
+  if not hits:
+    for x, tags in foreign_specs(impl):
+      if any(t not in LEGACY_TAGS for t in tags):
+        hits.append(('looser-spec-accepted', tags[0], 'the %s at %r carries a value spec that is not within the spec of its field (%s): writes into it are only checked against its own spec' % (
+            type(x).__name__, str(x.sym_path), ', '.join(tags))))
+        break
   return hits
 
 NONFIX_SIGNATURE = 'C03/member-not-fixpoint/apply/Union-result-dispatches-to-another-candidate'
 FOREIGN_SIGNATURE = 'C03/symbolic-value/child-keeps-its-own-spec/later-write'
 
+# ---- when may a value that carries its own spec stand in a field: the rule, written independently of the library ----------------------
+# (the intended is_compatible: Typing.compat of coq/Model/Typing.v without quirk flags, on spec trees)
+def _fixed(t): return bool(t[3]) and t[3][0] == t[2]
+def _enum_typed(vals):
+  """'int' / 'bool' when every non-None candidate has that exact type (the Enum then type-checks its values), else None."""
+  ts = {v[0] for v in vals if v != [0]}
+  return {frozenset([3]): 'int', frozenset([2]): 'bool'}.get(frozenset(ts))
+def rel_tags(r, s):
+  """Why a value acceptable to the sender spec tree s may be refused by the receiving spec tree r; [] = every value of s is one of r."""
+  rn, rd, rf = r[-1]; sn, sd, sf = s[-1]
+  tags = []
+  if rf and not (sf and rd == sd): tags.append('receiver-frozen')
+  k = r[0]
+  if k == 10: return tags
+  if k == 9:
+    if sn and not rn: tags.append('noneable')
+    if s[0] == 9:
+      for oc in s[1]:
+        t = rel_tags(r, oc)
+        if t: tags.append(t[0]); break
+    else:
+      per = [rel_tags(c, s) for c in r[1]]
+      if not any(t == [] for t in per):
+        known = [t for t in per if t and all(x in LEGACY_TAGS for x in t)]
+        best = known[0] if known else (min(per, key=len) if per else ['union-empty'])
+        tags.append(best[0])
+    return tags
+  if k == 4:
+    typed = _enum_typed(r[1])
+    def isin(v): return any(c04.build_value(v) == c04.build_value(w) and (typed is None or v == [0] or v[0] == w[0]) for w in r[1])
+    if sf and sd and isin(sd[0]): return tags
+    if s[0] != 4: return tags + ['kind:%s-into-%s' % (c04.KIND[s[0]], c04.KIND[k])]
+    if sn and not rn: tags.append('noneable')
+    if not all(isin(v) for v in s[1]): tags.append('enum-values')
+    return tags
+  if sn and not rn: tags.append('noneable')
+  if s[0] != k: return tags + ['kind:%s-into-%s' % (c04.KIND[s[0]], c04.KIND[k])]
+  if k in (1, 2):
+    if r[1]:
+      if not s[1]: tags.append('number-min-unbounded')
+      elif s[1][0] < r[1][0]: tags.append('number-min-lower')
+    if r[2]:
+      if not s[2]: tags.append('number-max-unbounded')
+      elif s[2][0] > r[2][0]: tags.append('number-max-larger')
+  elif k == 5:
+    if r[2] > s[2]: tags.append('list-min-size')
+    if r[3]:
+      if not s[3]: tags.append('list-max-size-unbounded')
+      elif s[3][0] > r[3][0]: tags.append('list-max-size-larger')
+    tags += rel_tags(r[1], s[1])
+  elif k == 6:
+    if _fixed(r):
+      if not _fixed(s) or len(r[1]) != len(s[1]): tags.append('tuple-size')
+      else:
+        for x, y in zip(r[1], s[1]): tags += rel_tags(x, y)
+    elif _fixed(s):
+      n = len(s[1])
+      if r[2] > n or (r[3] and r[3][0] < n): tags.append('tuple-size')
+      for y in s[1]: tags += rel_tags(r[1][0], y) if r[1] else ['tuple-size']
+    else:
+      if r[2] > s[2]: tags.append('tuple-min-size')
+      if r[3] and (not s[3] or s[3][0] > r[3][0]): tags.append('tuple-max-size')
+      if r[1] and s[1]: tags += rel_tags(r[1][0], s[1][0])
+  elif k == 7:
+    if r[1]:
+      if not s[1]: tags.append('dict-sender-without-schema')
+      else:
+        rfs = {trlib.to_line(kk): f for kk, f in r[1][0]}; sfs = {trlib.to_line(kk): f for kk, f in s[1][0]}
+        if any(kk not in rfs for kk in sfs): tags.append('key-undeclared')
+        for kk, f in rfs.items():
+          if kk not in sfs: tags.append('key-missing')
+          else: tags += rel_tags(f, sfs[kk])
+  elif k == 8:
+    if list(s[1][:len(r[1])]) != list(r[1]): tags.append('class')
+  return tags
+# relations that an OPEN finding already covers under its own signature (C04: is_compatible ignores that the receiver is frozen)
+LEGACY_TAGS = {'receiver-frozen'}
+
 def foreign_specs(impl):
-  """Symbolic children that carry a value spec other than the Dict / List spec their field declares (a typed value that the field
-  accepted because is_compatible said so keeps its own spec, and later writes into it are checked against that spec only)."""
+  """-> [(child, tags)]: symbolic children that carry a value spec of their own which is not within the spec of their field (a typed
+  value that a field accepts keeps its spec, and later writes into it are checked against that spec only)."""
   P = pg(); out = []
   for root in impl.roots:
     if root is None: continue
     def visit(x, parent, key):
-      if parent is None: return
+      if parent is None or isinstance(x, P.Object): return
       try:
-        ps, s = impl.spec_of(parent), impl.spec_of(x)
-        if ps is None or s is None: return
+        ps, cs = impl.spec_of(parent), impl.spec_of(x)
+        if ps is None or cs is None: return
         if isinstance(parent, P.List): f = ps.element.value
         else:
           fd = ps.schema.get_field(key) if ps.schema is not None else None
           f = fd.value if fd is not None else None
-        if isinstance(f, (P.typing.List, P.typing.Dict)) and f != s: out.append(x)
+        if f is None or f is cs: return
+        if isinstance(f, (P.typing.List, P.typing.Dict)) and f == cs: return
+        tags = rel_tags(c04.render(f), c04.render(cs))
+        if tags: out.append((x, tags))
       except Exception:     # pylint: disable=broad-except
         pass
     D.walk(root, visit)
   return out
+
+def cause_signature(impl, clause, by_reference, accepted):
+  """The signature of a hit that goes back to a typed value standing in a field whose spec it is not within, or None.
+  A relation that an open finding covers keeps that finding's signature; any other relation has a signature of its own."""
+  fs = foreign_specs(impl)
+  if not fs:
+    return None
+  new = [t for _, tags in fs for t in tags if t not in LEGACY_TAGS]
+  if new:
+    return 'C03/symbolic-value/looser-spec-accepted/%s' % new[0].split(':')[0]
+  if by_reference:
+    return 'C03/symbolic-value/%s/%s' % ('required-missing' if clause == 'required-missing' else 'other-clause', 'accepted' if accepted else 'rejected')
+  return FOREIGN_SIGNATURE
 BATCH_OPS = {D.LEXTEND, D.LIADD, D.LIMUL, D.DUPDATE, D.DIOR, D.REBIND, LSETSLICE}
 
 def content_of(snap):
@@ -498,7 +625,8 @@ class Oracle:
     return impl.snapshot()
   def after_init(self, impl, inits):
     for clause, disc, detail in check_forest(impl):
-      self.hits.append(('C03/%s/construction/%s' % (clause, disc), '%s: after construction, %s' % (clause, detail), -1))
+      sig = cause_signature(impl, clause, True, True) if (impl.by_reference_roots or clause == 'looser-spec-accepted') else None
+      self.hits.append((sig or 'C03/%s/construction/%s' % (clause, disc), '%s: after construction, %s' % (clause, detail), -1))
       self.failed = True
       break
   def __call__(self, impl, n, scope, op, res, info, before):
@@ -540,10 +668,11 @@ class Oracle:
     """(property, clause, operation kind, discriminator).  Two families are keyed by their cause rather than by the symptom, because
     one defect shows up under many clauses and operations: a symbolic value (a reference to a pg.Dict / pg.List / pg.Object, or a
     constructed one) written into a spec-checked container, and a write below the container held by a frozen field."""
+    if self.by_reference or clause in ('member-rejected', 'member-not-fixpoint', 'required-missing', 'frozen-differs', 'looser-spec-accepted'):
+      sig = cause_signature(impl, clause, self.by_reference, res[0] == 0)
+      if sig: return sig
     if self.by_reference:
       return 'C03/symbolic-value/%s/%s' % ('required-missing' if clause == 'required-missing' else 'other-clause', 'rejected' if res[0] == 1 else 'accepted')
-    if clause in ('member-rejected', 'member-not-fixpoint', 'required-missing', 'frozen-differs') and foreign_specs(impl):
-      return FOREIGN_SIGNATURE
     if disc == 'Union-dispatch':
       return NONFIX_SIGNATURE
     if disc.endswith('.frozen') and clause in ('member-rejected', 'frozen-differs', 'member-not-fixpoint'):
@@ -1129,6 +1258,8 @@ def open_witnesses():
                                                              [(NS, [D.DUPDATE, Pp(0), [[ek('x'), [1, 1, []]], [ek('y'), PV('bad')]]])])
   tb7 = Table(); Ll = tb7.add(T.List(T.List(T.Union([T.Int(), T.Any().freeze(1)]))))
   out['typed-child-keeps-its-own-spec'] = mkcase(tb7, [troot(1, Ll, [])], [(NS, [D.LINSERT, Pp(0), 0, [1, 0, []]]), (NS, [D.REBIND, Pp(0), [[[ek(0), ek(0)], PV([None])]]])])
+  tb8 = Table(); Mn = tb8.add(T.Dict([('f', T.List(T.Int(), min_size=2))])); Lo = tb8.add(T.List(T.Int()))
+  out['typed-list-with-smaller-min_size'] = mkcase(tb8, [troot(0, Mn, {'f': [1, 2]}), troot(1, Lo, [1, 2])], [(NS, [D.DSET, Pp(0), 0, ek('f'), [1, 1, []]]), (NS, [D.LPOP, Pp(0, 'f'), []])])
   tb4 = Table(); Un = tb4.add(T.Dict([('a', T.Union([T.Enum(True, [1, 'a']).freeze(), T.Bool().freeze(False)]))]))
   out['union-result-dispatches-to-another-candidate'] = mkcase(tb4, [troot(0, Un, {}, partial=1)], [(NS, [D.DSET, Pp(0), 0, ek('a'), PV(1.0)])])
   return out
@@ -1220,6 +1351,154 @@ def sweep_cases(rng, per_kind=6):
         out.append(('Object/init/%s/%s%s' % (kname, cls, '/partial' if partial else ''), mkcase(tb, [[1, 2, tb.cls[0], [0, 1, partial], [8, [[S('x'), v]]]]], [])))
       out.append(('Object/init-unexpected/%s' % kname, mkcase(tb, [[1, 2, tb.cls[0], [0, 1, partial], [8, [[S('x'), g0], [S('w'), [3, 1]]]]]], [])))
       out.append(('Object/init-missing/%s' % kname, mkcase(tb, [[1, 2, tb.cls[0], [0, 1, partial], [8, []]]], [])))
+  return out
+
+# ---- typed values handed to typed fields (oracle only): every relation between the sender's own spec and the field's spec ---------------
+def typed_sender_relations():
+  """-> [(name, receiving leaf spec R, sender's leaf spec S, values both accept, values only S accepts)].  The leaf sits in a field 'v'
+  of a Dict spec (sender: a pg.Dict that carries Dict([('v', S)])) or is the element of a List spec (sender: a pg.List bound to List(S))."""
+  T = pg().typing
+  I, F, E, L = T.Int, T.Float, T.Enum, T.List
+  A, B, X = c04.A, c04.B, c04.X
+  R05 = lambda: I(min_value=0, max_value=5)
+  F05 = lambda: F(min_value=0.0, max_value=5.0)
+  Eab = lambda: E('a', ['a', 'b'])
+  Dab = lambda: T.Dict([('a', I()), ('b', T.Str(default='d'))])
+  return [
+      # numeric ranges
+      ('int/equal', R05(), R05(), [3], []),
+      ('int/tighter', R05(), I(min_value=1, max_value=4), [2], []),
+      ('int/sender-no-max', R05(), I(min_value=0), [3], [50]),
+      ('int/sender-no-min', R05(), I(max_value=5), [3], [-7]),
+      ('int/sender-larger-max', R05(), I(min_value=0, max_value=9), [3], [8]),
+      ('int/sender-lower-min', R05(), I(min_value=-3, max_value=5), [3], [-2]),
+      ('int/sender-unbounded', R05(), I(), [3], [50, -7]),
+      ('int/disjoint', R05(), I(min_value=7, max_value=9), [], [8]),
+      ('int/receiver-min-only/sender-bounded', I(min_value=0), R05(), [3], []),
+      ('int/receiver-min-only/sender-unbounded', I(min_value=0), I(), [3], [-7]),
+      ('int/receiver-min-only/sender-max-only', I(min_value=0), I(max_value=5), [3], [-7]),
+      ('int/receiver-max-only/sender-min-only', I(max_value=5), I(min_value=0), [3], [50]),
+      ('int/receiver-max-only/sender-bounded', I(max_value=5), R05(), [3], []),
+      ('int/receiver-unbounded', I(), R05(), [3], []),
+      ('float/equal', F05(), F05(), [2.5], []),
+      ('float/tighter', F05(), F(min_value=1.0, max_value=4.0), [2.5], []),
+      ('float/sender-no-max', F05(), F(min_value=0.0), [2.5], [50.0]),
+      ('float/sender-no-min', F05(), F(max_value=5.0), [2.5], [-7.5]),
+      ('float/sender-larger-max', F05(), F(min_value=0.0, max_value=9.0), [2.5], [8.0]),
+      ('float/sender-lower-min', F05(), F(min_value=-3.0, max_value=5.0), [2.5], [-2.0]),
+      ('float/sender-unbounded', F05(), F(), [2.5], [50.0]),
+      ('float/receiver-max-only/sender-min-only', F(max_value=5.0), F(min_value=0.0), [2.5], [50.0]),
+      ('kind/int-into-float', F05(), R05(), [3], []),
+      ('kind/float-into-int', R05(), F05(), [], [2.5]),
+      ('kind/bool-into-str', T.Str(), T.Bool(), [], [True]),
+      ('kind/str-into-enum', Eab(), T.Str(), ['a'], ['zz']),
+      ('kind/int-into-any', T.Any(), I(), [3], []),
+      # enum candidates
+      ('enum/equal', Eab(), Eab(), ['a'], []),
+      ('enum/tighter', Eab(), E('a', ['a']), ['a'], []),
+      ('enum/sender-more-values', Eab(), E('a', ['a', 'b', 'x']), ['a'], ['x']),
+      ('enum/disjoint', Eab(), E('x', ['x']), [], ['x']),
+      ('enum/int-vs-float-values', E(1, [1, 2]), E(1.0, [1.0, 2.0]), [], [1.0]),
+      # noneable
+      ('noneable/sender-only', R05(), R05().noneable(), [3], [None]),
+      ('noneable/receiver-only', R05().noneable(), R05(), [3], []),
+      ('noneable/str-sender-only', T.Str(), T.Str().noneable(), ['a'], [None]),
+      ('noneable/enum-sender-only', Eab(), E('a', ['a', 'b', None]), ['a'], [None]),
+      # frozen
+      ('frozen/receiver-only', I().freeze(1), I(), [1], [2]),
+      ('frozen/both-same', I().freeze(1), I().freeze(1), [1], []),
+      ('frozen/both-differ', I().freeze(1), I().freeze(2), [], [2]),
+      # sizes (the leaf is a list / tuple)
+      ('size/equal', L(I(), min_size=1, max_size=2), L(I(), min_size=1, max_size=2), [[1]], []),
+      ('size/tighter', L(I(), max_size=3), L(I(), min_size=1, max_size=2), [[1]], []),
+      ('size/sender-no-max', L(I(), max_size=2), L(I()), [[1]], [[1, 2, 3]]),
+      ('size/sender-larger-max', L(I(), max_size=2), L(I(), max_size=4), [[1]], [[1, 2, 3]]),
+      ('size/sender-lower-min', L(I(), min_size=2), L(I()), [[1, 2]], [[1]]),
+      ('size/sender-lower-min-both-bounded', L(I(), min_size=2, max_size=3), L(I(), min_size=1, max_size=3), [[1, 2]], [[1]]),
+      ('size/element-looser', L(R05(), max_size=2), L(I(min_value=0), max_size=2), [[1]], [[50]]),
+      ('size/tuple-sender-no-max', T.Tuple(I(), max_size=2), T.Tuple(I()), [(1,)], [(1, 2, 3)]),
+      ('size/tuple-fixed-vs-variable', T.Tuple([I(), I()]), T.Tuple(I()), [(1, 2)], [(1,)]),
+      # key sets (the leaf is a dict)
+      ('keys/equal', Dab(), Dab(), [{'a': 1, 'b': 'x'}], []),
+      ('keys/sender-lacks-defaulted-key', Dab(), T.Dict([('a', I())]), [{'a': 1}], []),
+      ('keys/sender-lacks-required-key', Dab(), T.Dict([('b', T.Str(default='d'))]), [], [{'b': 'x'}]),
+      ('keys/sender-extra-key', Dab(), T.Dict([('a', I()), ('b', T.Str(default='d')), ('z', I(default=0))]), [], [{'a': 1, 'b': 'x', 'z': 1}]),
+      ('keys/sender-dynamic-key', Dab(), T.Dict([('a', I()), ('b', T.Str(default='d')), (T.StrKey(), I())]), [{'a': 1, 'b': 'x'}], [{'a': 1, 'b': 'x', 'q': 1}]),
+      ('keys/sender-without-schema', Dab(), T.Dict(), [{'a': 1, 'b': 'x'}], [{'q': 1}]),
+      ('keys/receiver-without-schema', T.Dict(), Dab(), [{'a': 1, 'b': 'x'}], []),
+      ('keys/field-looser', T.Dict([('a', R05())]), T.Dict([('a', I(min_value=0))]), [{'a': 1}], [{'a': 50}]),
+      # classes
+      ('class/equal', T.Object(A), T.Object(A), [A(1)], []),
+      ('class/sender-subclass', T.Object(A), T.Object(B), [B(1)], []),
+      ('class/sender-superclass', T.Object(B), T.Object(A), [B(1)], [A(2)]),
+      ('class/unrelated', T.Object(A), T.Object(X), [], [X(1)]),
+      # unions
+      ('union/sender-fits-a-candidate', T.Union([R05(), T.Str()]), I(min_value=1, max_value=2), [2], []),
+      ('union/sender-looser-than-every-candidate', T.Union([R05(), T.Str()]), I(min_value=0, max_value=9), [3], [8]),
+      ('union/sender-no-max', T.Union([R05(), T.Str()]), I(min_value=0), [3], [50]),
+      ('union/sender-other-kind', T.Union([R05(), T.Str()]), T.Bool(), [], [True]),
+      ('union/sender-union-with-more-candidates', T.Union([R05(), T.Str()]), T.Union([R05(), T.Str(), T.Bool()]), [3], [True]),
+      ('union/sender-union-subset', T.Union([R05(), T.Str(), T.Bool()]), T.Union([R05(), T.Str()]), [3], []),
+  ]
+
+def typed_sender_cases(rng, full):
+  """Every relation x {sender a typed pg.Dict, a typed pg.List} x receiver {Dict field, List element, Object attribute} x write path
+  (incl. construction) x {content both specs accept, content only the sender's spec accepts}, each followed by a write into the stored
+  child that only the sender's spec allows.  full=False: three write paths per combination (one per receiver), rotating.  -> [(label, case)]"""
+  T = pg().typing
+  out = []
+  n = 0
+  for rname, R, S, inside, outside in typed_sender_relations():
+    try:
+      rt = Table.tree(R); Rspec = c04.build(rt)
+    except (ValueError, c04.Unrenderable):
+      continue
+    ok = [v for v in inside if c04.acc_py(Rspec, v)] or [c04.build_value(v) for v in c04.values_for(rt, rng, limit=20) if v != [1] and c04.accepts(Rspec, v, False)]
+    if not ok: continue
+    r_ok = ok[0]
+    for shape in ('dict', 'list'):
+      mk = (lambda leaf: T.Dict([('v', copy.deepcopy(leaf))])) if shape == 'dict' else (lambda leaf: T.List(copy.deepcopy(leaf)))
+      wrap = (lambda c: {'v': c}) if shape == 'dict' else (lambda c: [c])
+      contents = [('inside', c) for c in inside[:1]] + [('outside', c) for c in outside[:2]]
+      later = outside[0] if outside else None
+      for recv in ('Dict', 'List', 'Object'):
+        try:
+          if recv == 'Object':
+            tb = Table((T.Dict([('x', mk(R)), ('y', T.Any(default=None))]), None, None)); rref = tb.cls[0]
+          else:
+            tb = Table(); rref = tb.add(T.Dict([('f', mk(R)), ('n', T.Int(default=0))]) if recv == 'Dict' else T.List(mk(R), max_size=3))
+          sref = tb.add(mk(S))
+        except (ValueError, c04.Unrenderable):
+          continue
+        key = {'Dict': 'f', 'List': 0, 'Object': 'x'}[recv]
+        kind_ = {'Dict': 0, 'List': 1, 'Object': 2}[recv]
+        init = {'Dict': {'f': wrap(r_ok)}, 'List': [wrap(r_ok)], 'Object': {'x': wrap(r_ok)}}[recv]
+        val = [1, 1, []]
+        if recv == 'Dict':
+          paths = [('setitem', [D.DSET, Pp(0), 0, ek('f'), val], 'f'), ('setattr', [D.DSET, Pp(0), 1, ek('f'), val], 'f'),
+                   ('update', [D.DUPDATE, Pp(0), [[ek('n'), PV(1)], [ek('f'), val]]], 'f'), ('ior', [D.DIOR, Pp(0), [[ek('f'), val]]], 'f'),
+                   ('rebind', [D.REBIND, Pp(0), [[[ek('f')], val]]], 'f'), ('construction', None, 'f')]
+        elif recv == 'List':
+          paths = [('setitem', [D.LSET, Pp(0), 0, val], 0), ('append', [D.LAPPEND, Pp(0), val], 1), ('insert', [D.LINSERT, Pp(0), 0, val], 0),
+                   ('extend', [D.LEXTEND, Pp(0), [val]], 1), ('iadd', [D.LIADD, Pp(0), [val]], 1), ('slice', [LSETSLICE, Pp(0), [[0], [1], []], [val]], 0),
+                   ('rebind', [D.REBIND, Pp(0), [[[ek(0)], val]]], 0), ('rebind-insert', [D.REBIND, Pp(0), [[[ek(0)], [2, val]]]], 0), ('construction', None, 0)]
+        else:
+          paths = [('setattr', [D.OSET, Pp(0), ek('x'), val], 'x'), ('rebind', [D.REBIND, Pp(0), [[[ek('x')], val]]], 'x'), ('construction', None, 'x')]
+        for cname, c in contents:
+          n += 1
+          chosen = paths if full else [paths[n % len(paths)]]
+          for pname, op, child in chosen:
+            try:
+              sender = troot(0 if shape == 'dict' else 1, sref, wrap(c))
+              if op is None:
+                roots = [sender, [2, kind_, rref, [0, 1, 0], [[ek(key), [1, 0, []]]]]]; ri = 1; steps = []
+              else:
+                roots = [troot(kind_, rref, init), sender]; ri = 0; steps = [(NS, op)]
+              if later is not None:
+                steps.append((NS, [D.DSET, Pp(ri, child), 0, ek('v'), PV(later)] if shape == 'dict' else [D.LAPPEND, Pp(ri, child), PV(later)]))
+              out.append(('typed-sender/%s/%s/%s/%s/%s' % (rname, shape, recv, pname, cname), mkcase(tb, roots, steps)))
+            except (ValueError, c04.Unrenderable):
+              continue
   return out
 
 # ---- the check ---------------------------------------------------------------------------------------------------
@@ -1366,6 +1645,15 @@ def run(ctx):
   for _ in range(nw):
     run_one(ctx, wild.case(rng.choice([4, 8, 10]), wild=True), 'oracle-only', False, [], sample_ok=False)
   ctx.log('oracle-only histories: %d in %.1fs' % (nw, time.time() - t1))
+  # --- oracle only: typed values (a pg.Dict / pg.List that carries its own value spec) handed to typed fields, every relation between
+  # the two specs x every write path incl. construction x content inside / outside the field's spec, then a write into the stored child
+  t2 = time.time()
+  ts = typed_sender_cases(rng, bool(ctx.thorough))
+  for lab, c in ts:
+    c[0] = list(quirks)
+    run_one(ctx, c, 'typed-sender:' + lab.split('/')[1], False, [], sample_ok=False)
+  ctx.extra['typed_sender_sweep'] = dict(cases=len(ts), relations=len(typed_sender_relations()), exhaustive=bool(ctx.thorough))
+  ctx.log('typed values into typed fields: %d cases in %.1fs' % (len(ts), time.time() - t2))
   ctx.extra['corpus_cases'] = len(corpus())
   # --- violation search when something is broken and the oracle has not hit: more histories biased to the op kinds that disagree
   if ctx.is_broken() and not ctx.hits:
